@@ -4,21 +4,40 @@
    differs from get_frequency_response by at most 2 * EFFECTIVE_SUPPORT_THRESHOLD
    in modulus. *)
 From Coq Require Import Reals ZArith List Lia Lra.
-From Coquelicot Require Import Complex.
 From Verif Require Import C06.Model C06.ArrayLemmas C06.CplxProofs C06.ModelR C06.ValueLemmas.
 From Verif Require Import C06.EnvBound.
 Import ListNotations.
 Open Scope R_scope.
 
-(* ModelR's operations on pairs are Coquelicot's *)
-Lemma Cnorm_Cmod (a : ModelR.C) : Cnorm a = Cmod a.
-Proof. reflexivity. Qed.
-
-Lemma Cnorm_triangle (a b : ModelR.C) : Cnorm (Cadd a b) <= Cnorm a + Cnorm b.
-Proof. exact (Cmod_triangle a b). Qed.
-
 Lemma Cnorm_mul (a b : ModelR.C) : Cnorm (Cmul a b) = Cnorm a * Cnorm b.
-Proof. exact (Cmod_mult a b). Qed.
+Proof.
+  destruct a as [a1 a2], b as [b1 b2]. unfold Cnorm, Cmul; cbn [fst snd].
+  rewrite <- sqrt_mult by nra. f_equal. ring.
+Qed.
+
+(* triangle inequality in the plane *)
+Lemma Cnorm_triangle (a b : ModelR.C) : Cnorm (Cadd a b) <= Cnorm a + Cnorm b.
+Proof.
+  destruct a as [a1 a2], b as [b1 b2]. unfold Cnorm, Cadd; cbn [fst snd].
+  set (A := sqrt (a1 ^ 2 + a2 ^ 2)). set (B := sqrt (b1 ^ 2 + b2 ^ 2)).
+  assert (HA : 0 <= A) by apply sqrt_pos. assert (HB : 0 <= B) by apply sqrt_pos.
+  assert (A2 : A * A = a1 ^ 2 + a2 ^ 2) by (apply sqrt_sqrt; nra).
+  assert (B2 : B * B = b1 ^ 2 + b2 ^ 2) by (apply sqrt_sqrt; nra).
+  assert (CS : a1 * b1 + a2 * b2 <= A * B).
+  { destruct (Rle_lt_dec (a1 * b1 + a2 * b2) 0) as [N | P]; [nra|].
+    assert (S2 : (a1 * b1 + a2 * b2) * (a1 * b1 + a2 * b2) <= (A * B) * (A * B)).
+    { replace (A * B * (A * B)) with ((A * A) * (B * B)) by ring. rewrite A2, B2.
+      assert (0 <= (a1 * b2 - a2 * b1) ^ 2) by apply pow2_ge_0. nra. }
+    assert (0 <= A * B) by nra. nra. }
+  rewrite <- (sqrt_square (A + B)) by lra.
+  replace ((a1 + b1) ^ 2 + (a2 + b2) ^ 2)
+    with ((a1 ^ 2 + a2 ^ 2) + (b1 ^ 2 + b2 ^ 2) + 2 * (a1 * b1 + a2 * b2)) by ring.
+  replace ((A + B) * (A + B)) with (A * A + B * B + 2 * (A * B)) by ring.
+  rewrite A2, B2.
+  apply sqrt_le_1; [| |lra].
+  - pose proof (pow2_ge_0 (a1 + b1)). pose proof (pow2_ge_0 (a2 + b2)). nra.
+  - nra.
+Qed.
 
 Lemma Cnorm_pow (a : ModelR.C) (n : nat) : Cnorm (ModelR.Cpow a n) = Cnorm a ^ n.
 Proof.
